@@ -5,15 +5,37 @@
 
 use std::cell::RefCell;
 
+use model::base_types::VehicleTypeIdx;
+
+use crate::transition::Transition;
 use crate::Schedule;
 
 thread_local! {
     static RECORDER: RefCell<Option<Vec<(String, Schedule)>>> = const { RefCell::new(None) };
 }
 
+thread_local! {
+    static TRANSITION_RECORDER: RefCell<Option<Vec<(String, VehicleTypeIdx, Transition)>>> = const { RefCell::new(None) };
+}
+
 /// Start recording on this thread (drops anything recorded before).
 pub fn enable() {
     RECORDER.with(|r| *r.borrow_mut() = Some(Vec::new()));
+    TRANSITION_RECORDER.with(|r| *r.borrow_mut() = Some(Vec::new()));
+}
+
+/// Store a transition of one vehicle type if recording is enabled.
+pub fn record_transition(label: &str, vehicle_type: VehicleTypeIdx, transition: &Transition) {
+    TRANSITION_RECORDER.with(|r| {
+        if let Some(records) = r.borrow_mut().as_mut() {
+            records.push((label.to_string(), vehicle_type, transition.clone()));
+        }
+    });
+}
+
+/// Return (and forget) the recorded transitions of this thread.
+pub fn take_transitions() -> Vec<(String, VehicleTypeIdx, Transition)> {
+    TRANSITION_RECORDER.with(|r| r.borrow_mut().take().unwrap_or_default())
 }
 
 /// Store a snapshot (cheap: schedules are persistent data structures) if recording is enabled.
